@@ -197,7 +197,7 @@ def register(reg, S):
     ne_c = reg.by_name(I + "NoteEvent.from_parsed_data")
     spe_end = lambda j: f"star_power_events[{j}].tick + star_power_events[{j}].sustain"
 
-    def per_event(evs, k="k", reveal=False):
+    def per_event(evs, k="k", reveal=False, only=None):
         """What the grouping loop records about event k, built from datas[g_lo[k]:g_hi[k]]:
         the hint-independent part of from_parsed_data's postcondition (as the opaque NEPOST, or
         unfolded when reveal=True) plus the star-power facts stated without reference to the
@@ -213,7 +213,10 @@ def register(reg, S):
               f"and implies({e}.star_power_data is not None, {e}.star_power_data.star_power_event_index == {c})")
         if reveal:
             body = " and ".join("(" + subst(t, m) + ")" for n, t in ne_c.ensures
-                                if not n.startswith("def:") and not n.startswith("sp-") and n != "cursor-nonneg")
+                                if not n.startswith("def:") and not n.startswith("sp-") and n != "cursor-nonneg"
+                                and (only is None or any(n.startswith(p) for p in only)))
+            if only is not None:
+                return body
         else:
             body = (f"{e}.tick == datas[g_lo[{k}]].tick and {e}._proximal_bpm_event_index >= 0 "
                     f"and {e}._proximal_bpm_event_index == gov({be}, {e}.tick) and "
@@ -223,11 +226,13 @@ def register(reg, S):
     def structure(evs, upto):
         n = f"len({evs})"
         return [
-            ("ghost-lengths", f"len(g_lo) == {n} and len(g_hi) == {n} and len(g_c) == {n}"),
+            ("ghost-lengths", f"len(g_lo) == {n} and len(g_hi) == {n} and len(g_c) == {n} and len(g_run) == {upto}"),
+            # g_run[j] is the run (= event) that datum j belongs to
+            ("every-datum-in-its-run", f"forall(0, {upto}, lambda j: 0 <= g_run[j] and g_run[j] < {n} and g_lo[g_run[j]] <= j and j < g_hi[g_run[j]] and datas[j].tick == {evs}[g_run[j]].tick)"),
             ("runs-cover-prefix", f"implies({n} == 0, {upto} == 0) and implies({n} > 0, g_lo[0] == 0 and g_hi[{n} - 1] == {upto})"),
             ("runs-nonempty-adjacent", f"forall(0, {n}, lambda k: 0 <= g_lo[k] and g_lo[k] < g_hi[k] and g_hi[k] <= len(datas) and implies(k + 1 < {n}, g_hi[k] == g_lo[k + 1]))"),
             ("run-has-event-tick", f"forall(0, {n}, lambda k: forall(g_lo[k], g_hi[k], lambda j: datas[j].tick == {evs}[k].tick))"),
-            ("ticks-strictly-increase", f"forall(0, {n} - 1, lambda k: {evs}[k].tick < {evs}[k + 1].tick)"),
+            ("ticks-strictly-increase", f"forall(0, {n}, lambda a: forall(a + 1, {n}, lambda b: {evs}[a].tick < {evs}[b].tick))"),
             ("each-event", f"forall(0, {n}, lambda k: {per_event(evs)})"),
             ("phrases-before-cursor-ended", f"forall(0, {n}, lambda k: forall(0, g_c[k], lambda j: {spe_end('j')} <= {evs}[k].tick))"),
         ]
@@ -246,13 +251,13 @@ def register(reg, S):
         I + "InstrumentTrack._build_note_events_from_data",
         params=dict(cls=_cls(I + "InstrumentTrack"), datas=SeqS(S["NoteData"]), star_power_events=SeqS(SPE), bpm_events=S["BPMEvents"]),
         result=SeqS(NE),
-        ghost_results=dict(g_lo=SeqS(INT), g_hi=SeqS(INT), g_c=SeqS(INT)),
+        ghost_results=dict(g_lo=SeqS(INT), g_hi=SeqS(INT), g_c=SeqS(INT), g_run=SeqS(INT)),
         requires=build_pre,
         raise_allowed={"ValueError": f"exists(0, len(datas), lambda k: datas[k].tick < 0) or {zero_tempo} or ({first_forced})"},
         must_raise=["exists(0, len(datas), lambda k: datas[k].tick < 0)", first_forced],
         ensures=structure("result", "len(datas)"),
-        ghost_init="g_lo = empty_ints()\ng_hi = empty_ints()\ng_c = empty_ints()",
-        ghosts=[Ghost("events.append(event)", "g_lo = append(g_lo, left)\ng_hi = append(g_hi, right)\ng_c = append(g_c, star_power_event_index)")],
+        ghost_init="g_lo = empty_ints()\ng_hi = empty_ints()\ng_c = empty_ints()\ng_run = empty_ints()",
+        ghosts=[Ghost("events.append(event)", "g_lo = append(g_lo, left)\ng_hi = append(g_hi, right)\ng_c = append(g_c, star_power_event_index)\ng_run = extend(g_run, right, len(events) - 1)")],
         loops={
             0: LoopSpec(invariants=[
                 ("index-range", "0 <= i and i <= num_datas and num_datas == len(datas)"),
@@ -270,6 +275,10 @@ def register(reg, S):
         },
         locals={"events": SeqS(NE)},
         props=["C02", "C03", "C04", "C05", "C11"]))
+
+    reg.note_per_event = per_event
+    reg.note_structure = structure
+    reg.note_build_pre = build_pre
 
     # ------------------------------------------------------------------ last note end
     reg.add(Contract(
